@@ -1,12 +1,874 @@
-/- C03 model — placeholder until the property is built -/
-import Klong.Model.Wire
+/-
+  C03 — function application, projection, locals and conditionals.
+
+  Mirrors (klongpy/interpreter.py, klongpy/types.py; tree with the two `fix:` commits of
+  branch fix-c03 applied):
+    KlongContext.__getitem__           -> `Ctx.get`        (module scopes are not modelled)
+    KlongContext.__setitem__           -> `Ctx.set`        (reserved x y z always go to the top scope;
+                                                            otherwise the first scope that has the name;
+                                                            otherwise strict-mode test, then the top scope)
+    KlongContext.__delitem__           -> `Ctx.del`        (first non read-only scope that has the name)
+    KlongContext.push / pop            -> `Ctx.push` / `Ctx.pop`  (`_min_ctx_count`)
+    KlongInterpreter.eval              -> `step` / `eval`  (fuelled big step)
+    KlongInterpreter.call              -> `callE`
+    KlongInterpreter._resolve_fn       -> `resolve1`, applied exactly three times in `resolve3`
+    KlongInterpreter._eval_fn          -> `evalFn`         (frame {x,y,z ↦ args} + locals + .f,
+                                                            pushed, body evaluated, popped in `finally`)
+    types.merge_projections            -> `mergeProjections` (`mergeOld` = the algorithm before the fix)
+    types.get_fn_arity                 -> `fnArity`
+    KGCond branch of eval              -> `truthy`
+    chain_adverbs + eval_adverb_each / eval_adverb_over (function verbs only) -> `evalEach`, `evalOver`
+    dyads.eval_dyad_at_index (function on the left) -> the `"@"` case of `step`
+  The handful of verbs the grammar needs (`+ - * = ,` dyads, `- # ~` monads on integers and flat
+  integer lists) are written locally; the verb/adverb library proper is C01/C02.
+
+  Reference semantics: `subst` (a call is the value of the body with x, y, z replaced by the
+  argument values, stopping at nested function literals).
+-/
+import Klong.Model.Val
 namespace Klong.C03
+open Klong
 
-structure State where
-  unit : Unit := ()
+/-! ## abstract syntax = run-time values
 
-def init : State := {}
+As in klongpy, programs and values are one universe: `eval` returns data, symbols and function
+objects (`KGFn` / `KGCall` nodes) unchanged. -/
 
-def handle (s : State) (_ws : List String) : State × String := (s, "bad-op")
+inductive Expr where
+  | lit (v : Val)                                   -- number, character, string, ndarray, dictionary
+  | hole                                            -- `None` in an argument list
+  | sym (s : String)                                -- KGSym
+  | op1 (o : String) (a : Expr)                     -- KGFn(KGOp(o,1), a, 1)
+  | op2 (o : String) (a b : Expr)                   -- KGFn(KGOp(o,2), [a, b], 2)
+  | asg (s : String) (e : Expr)                     -- KGFn(KGOp('::',2), [KGSym s, e], 2)
+  | fn (a : Expr) (arity : Nat)                     -- KGFn(a, None, arity): function literal / value
+  | proj (a : Expr) (args : List Expr) (arity : Nat)   -- KGFn(a, args, arity), args contain `hole`
+  | call (a : Expr) (args : List Expr) (arity : Nat)   -- KGCall(a, args, arity)
+  | callN (a : Expr) (arity : Nat)                  -- KGCall(a, None, arity)
+  | prog (es : List Expr)                           -- Python list of expressions
+  | cond (c a b : Expr)                             -- KGCond([c, a, b])
+  | each (f arg : Expr)                             -- KGCall([KGAdverb(f,1), KGAdverb("'",1), arg], None, 1)
+  | over (f arg : Expr)                             -- KGCall([KGAdverb(f,2), KGAdverb("/",1), arg], None, 1)
+  | lam (name : String)                             -- KGLambda wrapping the Python callable `name`
+deriving Repr, Inhabited
+
+inductive Err where
+  | boom          -- the failing primitive raised
+  | undef         -- KlongException("undefined: f")
+  | strict        -- KlongException("undefined variable …") of strict mode
+  | type          -- any Python TypeError / ValueError / IndexError / KeyError raised by a verb or by the machinery
+  | fuel          -- evaluation budget of the model exhausted (RecursionError on the Python side)
+  | unmodelled    -- the construct is outside this model (never produced by the closed grammar)
+deriving Repr, DecidableEq, Inhabited
+
+def reserved (k : String) : Bool := k == "x" || k == "y" || k == "z"
+
+def isHole : Expr → Bool
+  | .hole => true
+  | _ => false
+
+/-- `has_none` on an argument list -/
+def hasHole (as : List Expr) : Bool := as.any isHole
+
+/-- `isinstance(v, KGFn)` -/
+def isKGFn : Expr → Bool
+  | .op1 .. | .op2 .. | .asg .. | .fn .. | .proj .. | .call .. | .callN .. | .each .. | .over .. => true
+  | _ => false
+
+def isLam : Expr → Bool
+  | .lam _ => true
+  | _ => false
+
+/-! ## the context (KlongContext) -/
+
+abbrev KV := List (String × Expr)
+
+namespace KV
+def get (d : KV) (k : String) : Option Expr := List.lookup k d
+def has (d : KV) (k : String) : Bool := (List.lookup k d).isSome
+def keys (d : KV) : List String := d.map (·.1)
+/-- `d[k] = v`: overwrite in place or append -/
+def put : KV → String → Expr → KV
+  | [], k, v => [(k, v)]
+  | (k', v') :: r, k, v => if k == k' then (k, v) :: r else (k', v') :: put r k v
+def erase : KV → String → KV
+  | [], _ => []
+  | (k', v') :: r, k => if k == k' then r else (k', v') :: erase r k
+end KV
+
+structure Scope where
+  ro : Bool := false          -- ReadonlyDict (the system function scope)
+  kv : KV := []
+deriving Repr, Inhabited
+
+structure Ctx where
+  scopes : List Scope         -- index 0 = `_context[0]` = innermost frame
+  minCount : Nat              -- `_min_ctx_count`
+  strict : Nat := 0           -- `_strict_mode` (KlongInterpreter always passes 0)
+deriving Repr, Inhabited
+
+def getScopes : List Scope → String → Option Expr
+  | [], _ => none
+  | d :: r, k => match d.kv.get k with
+    | some v => some v
+    | none => getScopes r k
+
+/-- the loop `for d in self._context: if in_map(k, d): d[k] = v; return k`; `none` = not found,
+    `some (error _)` = the scope found is the read-only one (`ReadonlyDict` has no `__setitem__`) -/
+def setExisting : List Scope → String → Expr → Option (Except Err (List Scope))
+  | [], _, _ => none
+  | d :: r, k, v =>
+    if d.kv.has k then
+      if d.ro then some (.error .type) else some (.ok ({ d with kv := d.kv.put k v } :: r))
+    else match setExisting r k v with
+      | none => none
+      | some (.error e) => some (.error e)
+      | some (.ok r') => some (.ok (d :: r'))
+
+/-- `set_context_var(self._context[0], k, v)` -/
+def putTop : List Scope → String → Expr → List Scope
+  | [], _, _ => []
+  | d :: r, k, v => { d with kv := d.kv.put k v } :: r
+
+def delScopes : List Scope → String → Option (List Scope)
+  | [], _ => none
+  | d :: r, k =>
+    if d.kv.has k && !d.ro then some ({ d with kv := d.kv.erase k } :: r)
+    else (delScopes r k).map (d :: ·)
+
+namespace Ctx
+
+def get (c : Ctx) (k : String) : Option Expr := getScopes c.scopes k
+
+def depth (c : Ctx) : Nat := c.scopes.length
+
+/-- creation of a name that exists nowhere (second half of `__setitem__`) -/
+def create (c : Ctx) (k : String) (v : Expr) : Except Err Ctx :=
+  if c.strict ≥ 1 && decide (c.scopes.length > c.minCount + 1) then .error .strict
+  else match c.scopes with
+    | d :: _ => if d.ro then .error .type        -- ReadonlyDict has no __setitem__
+                else .ok { c with scopes := putTop c.scopes k v }
+    | [] => .error .type                          -- IndexError: deque index out of range
+
+def set (c : Ctx) (k : String) (v : Expr) : Except Err Ctx :=
+  if reserved k then create c k v
+  else match setExisting c.scopes k v with
+    | some (.ok s) => .ok { c with scopes := s }
+    | some (.error e) => .error e
+    | none => create c k v
+
+/-- a write that leaves the context alone when it raises -/
+def setD (c : Ctx) (k : String) (v : Expr) : Ctx :=
+  match c.set k v with
+  | .ok c' => c'
+  | .error _ => c
+
+def del (c : Ctx) (k : String) : Option Ctx :=
+  (delScopes c.scopes k).map fun s => { c with scopes := s }
+
+def push (c : Ctx) (d : KV) : Ctx := { c with scopes := { kv := d } :: c.scopes }
+
+def pop (c : Ctx) : Ctx :=
+  if c.scopes.length > c.minCount then { c with scopes := c.scopes.tail } else c
+
+end Ctx
+
+/-! ## evaluation monad: state survives an exception (Python `try … finally`) -/
+
+structure St where
+  ctx : Ctx
+  log : List Expr := []       -- events of the logging primitive
+deriving Repr, Inhabited
+
+abbrev Res (α : Type) := Except Err α × St
+
+def M (α : Type) := St → Res α
+
+namespace M
+@[inline] def pure' (a : α) : M α := fun s => (.ok a, s)
+@[inline] def bind' (m : M α) (f : α → M β) : M β := fun s =>
+  match m s with
+  | (.ok a, s') => f a s'
+  | (.error e, s') => (.error e, s')
+instance : Monad M where
+  pure := pure'
+  bind := bind'
+def raise (e : Err) : M α := fun s => (.error e, s)
+def getCtx : M Ctx := fun s => (.ok s.ctx, s)
+def setCtx (c : Ctx) : M Unit := fun s => (.ok (), { s with ctx := c })
+def emit (e : Expr) : M Unit := fun s => (.ok (), { s with log := s.log ++ [e] })
+def liftE : Except Err α → M α
+  | .ok a => pure a
+  | .error e => raise e
+/-- `self._context[k] = v` -/
+def assign (k : String) (v : Expr) : M Unit := fun s =>
+  match s.ctx.set k v with
+  | .ok c => (.ok (), { s with ctx := c })
+  | .error e => (.error e, s)
+/-- `self._context.push(d); try: m finally: self._context.pop()` -/
+def framed (d : KV) (m : M α) : M α := fun s =>
+  let r := m { s with ctx := s.ctx.push d }
+  (r.1, { r.2 with ctx := r.2.ctx.pop })
+end M
+open M
+
+/-! ## the local verbs (integers and flat integer lists) -/
+
+def asInts : List Val → Option (List Int)
+  | [] => some []
+  | .int n :: r => (asInts r).map (n :: ·)
+  | _ :: _ => none
+
+def ofInts (l : List Int) : Val := .list (l.map .int)
+
+/-- numpy broadcasting of two rank-1 operands: equal lengths, or one of length 1 -/
+def zipBroadcast (f : Int → Int → Int) (as bs : List Int) : Option (List Int) :=
+  if as.length = bs.length then some (List.zipWith f as bs)
+  else match as, bs with
+    | [a], _ => some (bs.map (f a))
+    | _, [b] => some (as.map (f · b))
+    | _, _ => none
+
+def arith (f : Int → Int → Int) : Val → Val → Option Val
+  | .int a, .int b => some (.int (f a b))
+  | .int a, .list ys => (asInts ys).map fun bs => ofInts (bs.map (f a))
+  | .list xs, .int b => (asInts xs).map fun as => ofInts (as.map (f · b))
+  | .list xs, .list ys =>
+    match asInts xs, asInts ys with
+    | some as, some bs => (zipBroadcast f as bs).map ofInts
+    | _, _ => none
+  | _, _ => none
+
+def toItems : Val → List Val
+  | .list xs => xs
+  | v => [v]
+
+def dyad (o : String) (a b : Val) : Option Val :=
+  if o == "+" then arith (· + ·) a b
+  else if o == "-" then arith (· - ·) a b
+  else if o == "*" then arith (· * ·) a b
+  else if o == "=" then arith (fun x y => if x = y then 1 else 0) a b
+  else if o == "," then
+    match a, b with
+    | .str _, _ => none
+    | _, .str _ => none
+    | _, _ => some (.list (toItems a ++ toItems b))
+  else none
+
+def monad (o : String) (a : Val) : Option Val :=
+  if o == "-" then
+    match a with
+    | .real b => some (.real (b ^^^ 0x8000000000000000))
+    | _ => arith (· - ·) (.int 0) a
+  else if o == "#" then
+    match a with
+    | .int n => some (.int n.natAbs)
+    | .list xs => some (.int xs.length)
+    | .str cs => some (.int cs.length)
+    | _ => none
+  else if o == "~" then arith (fun _ y => if y = 0 then 1 else 0) (.int 0) a
+  else none
+
+/-- Klong truth: `not ((is_number(q) and q == 0) or is_empty(q))` -/
+def falsy : Val → Bool
+  | .int n => n == 0
+  | .real b => b == 0 || b == 0x8000000000000000     -- +0.0 and -0.0
+  | .list xs => xs.isEmpty
+  | .str cs => cs.isEmpty
+  | _ => false
+
+def truthy : Expr → Bool
+  | .lit v => !falsy v
+  | _ => true
+
+/-! ## arity inference (types.get_fn_arity) -/
+
+def dedup (l : List String) : List String :=
+  l.foldl (fun acc s => if acc.contains s then acc else acc ++ [s]) []
+
+mutual
+/-- `_e`: the reserved symbols occurring in an AST (nested function literals included; the operand
+    of a monadic operator and the verb of an adverb are NOT visited, as in the Python code) -/
+def params : Expr → List String
+  | .sym s => if reserved s then [s] else []
+  | .op1 _ (.cond c a b) => params c ++ params a ++ params b     -- KGCond is a list: visited
+  | .op1 _ _ => []
+  | .op2 _ a b => params a ++ params b
+  | .asg _ e => params e            -- args = [KGSym name, e]; the name is never reserved here
+  | .fn a _ => params a
+  | .callN a _ => params a
+  | .proj a as _ => params a ++ paramsL as
+  | .call a as _ => params a ++ paramsL as
+  | .prog es => paramsL es
+  | .cond c a b => params c ++ params a ++ params b
+  | .each _ arg => params arg
+  | .over _ arg => params arg
+  | _ => []
+def paramsL : List Expr → List String
+  | [] => []
+  | e :: es => params e ++ paramsL es
+end
+
+/-- first branch of get_fn_arity: the body is one call / projection through a non-reserved symbol -/
+def argSlots : List Expr → List String
+  | [] => []
+  | .hole :: r => "" :: argSlots r
+  | .sym s :: r => if reserved s then s :: argSlots r else argSlots r
+  | _ :: r => argSlots r
+
+def fnArity (body : Expr) : Nat :=
+  match body with
+  | .call (.sym s) as _ => if reserved s then (dedup (params body)).length else (dedup (argSlots as)).length
+  | .proj (.sym s) as _ => if reserved s then (dedup (params body)).length else (dedup (argSlots as)).length
+  | _ => (dedup (params body)).length
+
+/-! ## `_resolve_fn` and `merge_projections` -/
+
+abbrev Layers := List (Option (List Expr))
+
+/-- one pass of `_resolve_fn(f, f_args, f_arity)`; `layers` is f_args, oldest first -/
+def resolve1 (c : Ctx) (f : Expr) (layers : Layers) (ar : Nat) : Except Err (Expr × Layers × Nat) :=
+  let unwrap (f : Expr) : Except Err (Expr × Layers × Nat) :=
+    if ar > 0 then
+      match f with
+      | .fn a far => .ok (a, layers, far)
+      | .callN a far => .ok (a, layers, far)
+      | .proj a as far => if hasHole as then .ok (a, layers ++ [some as], far) else .ok (f, layers, ar)
+      | .call a as far => if hasHole as then .ok (a, layers ++ [some as], far) else .ok (f, layers, ar)
+      | _ => .ok (f, layers, ar)
+    else .ok (f, layers, ar)
+  match f with
+  | .sym s =>
+    match c.get s with
+    | some v =>
+      if isKGFn v || isLam v || !reserved s then unwrap v
+      else .ok (f, layers, ar)
+    | none => if reserved s then unwrap f else .error .undef
+  | _ => unwrap f
+
+/-- "three passes as there are max three arguments: x, y, and z" -/
+def resolve3 (c : Ctx) (f : Expr) (layers : Layers) (ar : Nat) : Except Err (Expr × Layers × Nat) := do
+  let (f1, l1, a1) ← resolve1 c f layers ar
+  let (f2, l2, a2) ← resolve1 c f1 l1 a1
+  resolve1 c f2 l2 a2
+
+/-- one layer: its entries go to the open positions left to right; a hole stays a hole -/
+def fillLayer : List Expr → List Expr → List Expr
+  | [], _ => []
+  | s :: ss, [] => s :: ss
+  | .hole :: ss, a :: as => a :: fillLayer ss as
+  | s :: ss, a :: as => s :: fillLayer ss (a :: as)
+
+def fillLayers (sparse : List Expr) : Layers → Except Err (List Expr)
+  | [] => .ok sparse
+  | none :: _ => .error .type                      -- len(None)
+  | some fa :: r => fillLayers (fillLayer sparse fa) r
+
+/-- `merge_projections(arr)`, `arr` = layers, innermost projection first -/
+def mergeProjections (arr : Layers) : Except Err (Option (List Expr)) :=
+  match arr with
+  | [] => .ok (some [])
+  | [a] => .ok a
+  | none :: _ => .ok none
+  | some l0 :: rest => if !hasHole l0 then .ok (some l0) else (fillLayers l0 rest).map some
+
+/-! ### the algorithm of the pinned tree (before `fix: merge_projections …`), kept for the witness
+
+`i` is never reset between layers, holes of a layer that follow a filled entry are skipped, and
+the result is an ndarray, on which `has_none` answers False. -/
+
+def oldInner (fuel : Nat) (sparse : List Expr) (i : Nat) (fa : List Expr) (j : Nat) : List Expr × Nat :=
+  match fuel with
+  | 0 => (sparse, i)
+  | fuel + 1 =>
+    if i < sparse.length && j < fa.length then
+      if isHole (sparse.getD i .hole) then
+        let sparse' := sparse.set i (fa.getD j .hole)
+        let j' := j + 1 + ((fa.drop (j + 1)).takeWhile isHole).length
+        oldInner fuel sparse' (i + 1) fa j'
+      else oldInner fuel sparse (i + 1) fa j
+    else (sparse, i)
+
+def oldOuter (sparse : List Expr) (i : Nat) : List (List Expr) → List Expr
+  | [] => sparse
+  | fa :: r =>
+    if i < sparse.length then
+      let (s', i') := oldInner (sparse.length + 1) sparse i fa 0
+      oldOuter s' i' r
+    else sparse
+
+def mergeOld (l0 : List Expr) (rest : List (List Expr)) : List Expr := oldOuter l0 0 rest
+
+/-! ## the evaluator -/
+
+/-- `KlongInterpreter.call`: a KGFn is re-wrapped as a KGCall before `eval` -/
+def callE (ev : Expr → M Expr) (e : Expr) : M Expr :=
+  match e with
+  | .fn a ar => ev (.callN a ar)
+  | .proj a as ar => ev (.call a as ar)
+  | e => ev e
+
+/-- `{x: self.call(q) for p, q in zip(['x','y','z'], f_args)}` -/
+def bindArgs (ev : Expr → M Expr) : List String → List Expr → M KV
+  | p :: ps, a :: as => do
+    let v ← callE ev a
+    let r ← bindArgs ev ps as
+    pure ((p, v) :: r)
+  | _, _ => pure []
+
+def nameOf (cs : List Nat) : String := String.ofList (cs.map Char.ofNat)
+
+def symNames : List Val → Option (List String)
+  | [] => some []
+  | .sym cs :: r => (symNames r).map (nameOf cs :: ·)
+  | _ :: _ => none
+
+/-- `is_list(f[0]) and len(f[0]) > 0` and every element a symbol -/
+def localNames : Expr → Option (List String)
+  | .lit (.list (v :: vs)) => symNames (v :: vs)
+  | _ => none
+
+/-- the local-declaration test of `_eval_fn`: `(names, f[1:])` -/
+def splitLocals (f : Expr) : Option (List String × Expr) :=
+  match f with
+  | .prog (e0 :: e1 :: es) => (localNames e0).map fun ns => (ns, .prog (e1 :: es))
+  | .cond c a b => (localNames c).map fun ns => (ns, .prog [a, b])
+  | .lit (.list (v0 :: v1 :: vs)) => (localNames (.lit v0)).map fun ns => (ns, .lit (.list (v1 :: vs)))
+  | _ => none
+
+/-- `for q in params: if q not in ctx: ctx[q] = q` -/
+def addLocals (d : KV) : List String → KV
+  | [] => d
+  | n :: ns => addLocals (if d.has n then d else d.put n (.sym n)) ns
+
+/-- the Python callables the harness installs: `boom(x)` raises, `log(x)` records x and returns it -/
+def runPrim (name : String) : M Expr := do
+  let c ← getCtx
+  match c.get "x" with
+  | none => raise .type
+  | some v =>
+    if name == "boom" then raise .boom
+    else if name == "log" then do emit v; pure v
+    else raise .unmodelled
+
+/-- first half of `_eval_fn`: three resolution passes, merge, arity / hole test.
+    `none` = "return x" (the call is a partial application and evaluates to itself);
+    `some (f, f_args)` = the function object and its merged argument list -/
+def prepare (c : Ctx) (a : Expr) (args : Option (List Expr)) (ar : Nat) :
+    Except Err (Option (Expr × Option (List Expr))) :=
+  match resolve3 c a [args] ar with
+  | .error e => .error e
+  | .ok (f, layers, far) =>
+    match mergeProjections layers.reverse with
+    | .error e => .error e
+    | .ok none => if 0 < far then .ok none else .ok (some (f, none))
+    | .ok (some as) => if as.length < far || hasHole as then .ok none else .ok (some (f, some as))
+
+/-- the frame of a call: {x,y,z ↦ args} + declared locals + .f; and the body left to evaluate -/
+def frameOf (f : Expr) (frame0 : KV) : KV × Expr :=
+  match splitLocals f with
+  | some (ns, rest) => ((addLocals frame0 ns).put ".f" f, rest)
+  | none => (frame0.put ".f" f, f)
+
+/-- second half of `_eval_fn`: bind, push, evaluate, pop in `finally` -/
+def applyFn (ev : Expr → M Expr) (f : Expr) (merged : Option (List Expr)) : M Expr := do
+  let frame0 ← match merged with
+    | none => pure []
+    | some as => bindArgs ev ["x", "y", "z"] as
+  framed (frameOf f frame0).1 (match (frameOf f frame0).2 with
+    | .lam name => runPrim name
+    | body => callE ev body)
+
+/-- `_eval_fn(x)` with `x = KGCall(a, args, ar)`; `self` is x itself (returned for a partial application) -/
+def evalFn (ev : Expr → M Expr) (self a : Expr) (args : Option (List Expr)) (ar : Nat) : M Expr := do
+  let c ← getCtx
+  let p ← liftE (prepare c a args ar)
+  match p with
+  | none => pure self
+  | some (f, merged) => applyFn ev f merged
+
+def litList : List Expr → Option (List Val)
+  | [] => some []
+  | .lit v :: r => (litList r).map (v :: ·)
+  | _ :: _ => none
+
+def evalEachLoop (ev : Expr → M Expr) (f : Expr) : List Val → M (List Expr)
+  | [] => pure []
+  | x :: xs => do
+    let u ← ev (.call f [.lit x] 1)
+    let r ← evalEachLoop ev f xs
+    pure (u :: r)
+
+def evalOverLoop (ev : Expr → M Expr) (f : Expr) (acc : Expr) : List Val → M Expr
+  | [] => pure acc
+  | x :: xs => do
+    let acc' ← ev (.call f [acc, .lit x] 2)
+    evalOverLoop ev f acc' xs
+
+/-- `[self.call(y) for y in x][-1]`; the empty list evaluates to itself -/
+def evalProg (ev : Expr → M Expr) (last : Expr) : List Expr → M Expr
+  | [] => pure last
+  | x :: xs => do
+    let v ← callE ev x
+    evalProg ev v xs
+
+/-- one unfolding of `KlongInterpreter.eval`; `ev` evaluates sub-expressions -/
+def step (ev : Expr → M Expr) (e : Expr) : M Expr :=
+  match e with
+  | .sym s => do
+    let c ← getCtx
+    match c.get s with
+    | some v => pure v
+    | none =>
+      if reserved s then pure e
+      else do assign s e; pure e
+  | .op1 o a => do
+    let x ← ev a
+    match x with
+    | .lit v => match monad o v with
+      | some r => pure (.lit r)
+      | none => raise .type
+    | _ => raise .type
+  | .op2 o a b => do
+    let y ← ev b                                  -- the right operand is evaluated first
+    let x ← ev a
+    if o == "@" then
+      if isKGFn x || isLam x || (match x with | .sym _ => true | _ => false) then
+        match y with
+        | .lit (.list ys) => ev (.call x (ys.map .lit) 1)
+        | _ => ev (.call x [y] 1)
+      else raise .unmodelled
+    else match x, y with
+      | .lit v, .lit w => match dyad o v w with
+        | some r => pure (.lit r)
+        | none => raise .type
+      | _, _ => raise .type
+  | .asg s rhs => do
+    let v ← ev rhs
+    assign s v
+    pure v
+  | .call a as ar => evalFn ev e a (some as) ar
+  | .callN a ar => evalFn ev e a none ar
+  | .cond c a b => do
+    let q ← callE ev c
+    if truthy q then callE ev a else callE ev b
+  | .prog es => evalProg ev e es
+  | .each f arg => do
+    let a ← ev arg
+    match a with
+    | .lit (.list xs) =>
+      if xs.isEmpty then pure a
+      else do
+        let r ← evalEachLoop ev f xs
+        match litList r with
+        | some vs => pure (.lit (.list vs))
+        | none => raise .unmodelled
+    | .lit (.str _) => raise .unmodelled
+    | .lit (.dict _) => raise .unmodelled
+    | _ => ev (.call f [a] 1)
+  | .over f arg => do
+    let a ← ev arg
+    match a with
+    | .lit (.list []) => pure a
+    | .lit (.list [x]) => pure (.lit x)
+    | .lit (.list (x :: xs)) => evalOverLoop ev f (.lit x) xs
+    | .lit (.str []) => pure a
+    | .lit (.str _) => raise .unmodelled
+    | _ => pure a
+  | _ => pure e                                     -- data, holes, function objects evaluate to themselves
+
+def eval : Nat → Expr → M Expr
+  | 0, _ => raise .fuel
+  | n + 1, e => step (eval n) e
+
+/-- a whole program text as `KlongInterpreter.__call__` runs it -/
+def run (fuel : Nat) (es : List Expr) : M Expr := eval fuel (.prog es)
+
+/-! ## reference semantics: substitution -/
+
+def bound (σ : KV) (k : String) : Option Expr := List.lookup k σ
+
+mutual
+/-- replace the parameters by the argument values; a nested function literal rebinds x, y, z
+    and `.f`, so substitution stops there -/
+def subst (σ : KV) : Expr → Expr
+  | .sym s => match bound σ s with
+    | some v => v
+    | none => .sym s
+  | .op1 o a => .op1 o (subst σ a)
+  | .op2 o a b => .op2 o (subst σ a) (subst σ b)
+  | .asg s e => .asg s (subst σ e)
+  | .call a as ar => .call (subst σ a) (substL σ as) ar
+  | .proj a as ar => .proj (subst σ a) (substL σ as) ar
+  | .callN a ar => .callN (subst σ a) ar
+  | .prog es => .prog (substL σ es)
+  | .cond c a b => .cond (subst σ c) (subst σ a) (subst σ b)
+  | .each f arg => .each (subst σ f) (subst σ arg)
+  | .over f arg => .over (subst σ f) (subst σ arg)
+  | e => e                                          -- literals, holes, nested `fn`, lam
+def substL (σ : KV) : List Expr → List Expr
+  | [] => []
+  | e :: es => subst σ e :: substL σ es
+end
+
+/-! ## wire format
+
+    (lit V) H (sym n) (op1 o e) (op2 o e e) (asg n e) (fn e k) (proj e (e…) k) (call e (e…) k)
+    (callN e k) (prog e…) (cond e e e) (each e e) (over e e) (lam n)
+  `V` is a `Klong.Val` in its own wire format; operator names are sent as decimal code points
+  joined by `.` so that no bracket or blank occurs in a token. -/
+
+def opToken (o : String) : String := ".".intercalate (o.toList.map fun c => toString c.toNat)
+
+def opOfToken (t : String) : Option String :=
+  ((t.splitOn ".").mapM fun (p : String) => p.toNat?).map fun ns => String.ofList (ns.map Char.ofNat)
+
+mutual
+def toWire : Expr → String
+  | .lit v => "(lit " ++ v.toWire ++ ")"
+  | .hole => "H"
+  | .sym s => "(sym " ++ s ++ ")"
+  | .op1 o a => "(op1 " ++ opToken o ++ " " ++ toWire a ++ ")"
+  | .op2 o a b => "(op2 " ++ opToken o ++ " " ++ toWire a ++ " " ++ toWire b ++ ")"
+  | .asg s e => "(asg " ++ s ++ " " ++ toWire e ++ ")"
+  | .fn a k => "(fn " ++ toWire a ++ " " ++ toString k ++ ")"
+  | .proj a as k => "(proj " ++ toWire a ++ " (" ++ toWireL as ++ ") " ++ toString k ++ ")"
+  | .call a as k => "(call " ++ toWire a ++ " (" ++ toWireL as ++ ") " ++ toString k ++ ")"
+  | .callN a k => "(callN " ++ toWire a ++ " " ++ toString k ++ ")"
+  | .prog es => "(prog " ++ toWireL es ++ ")"
+  | .cond c a b => "(cond " ++ toWire c ++ " " ++ toWire a ++ " " ++ toWire b ++ ")"
+  | .each f a => "(each " ++ toWire f ++ " " ++ toWire a ++ ")"
+  | .over f a => "(over " ++ toWire f ++ " " ++ toWire a ++ ")"
+  | .lam n => "(lam " ++ n ++ ")"
+def toWireL : List Expr → String
+  | [] => ""
+  | [e] => toWire e
+  | e :: es => toWire e ++ " " ++ toWireL es
+end
+
+mutual
+partial def parseE : List Val.Tok → Option (Expr × List Val.Tok)
+  | .atom "H" :: r => some (.hole, r)
+  | .lp :: .atom "lit" :: r =>
+    match Val.parse r with
+    | some (v, .rp :: r') => some (.lit v, r')
+    | _ => none
+  | .lp :: .atom "sym" :: .atom n :: .rp :: r => some (.sym n, r)
+  | .lp :: .atom "lam" :: .atom n :: .rp :: r => some (.lam n, r)
+  | .lp :: .atom "op1" :: .atom o :: r => do
+    let o ← opOfToken o
+    let (a, r) ← parseE r
+    match r with
+    | .rp :: r => some (.op1 o a, r)
+    | _ => none
+  | .lp :: .atom "op2" :: .atom o :: r => do
+    let o ← opOfToken o
+    let (a, r) ← parseE r
+    let (b, r) ← parseE r
+    match r with
+    | .rp :: r => some (.op2 o a b, r)
+    | _ => none
+  | .lp :: .atom "asg" :: .atom n :: r => do
+    let (a, r) ← parseE r
+    match r with
+    | .rp :: r => some (.asg n a, r)
+    | _ => none
+  | .lp :: .atom "fn" :: r => do
+    let (a, r) ← parseE r
+    match r with
+    | .atom k :: .rp :: r => k.toNat?.map fun k => (.fn a k, r)
+    | _ => none
+  | .lp :: .atom "callN" :: r => do
+    let (a, r) ← parseE r
+    match r with
+    | .atom k :: .rp :: r => k.toNat?.map fun k => (.callN a k, r)
+    | _ => none
+  | .lp :: .atom "proj" :: r => do
+    let (a, r) ← parseE r
+    match r with
+    | .lp :: r => do
+      let (as, r) ← parseL r []
+      match r with
+      | .atom k :: .rp :: r => k.toNat?.map fun k => (.proj a as k, r)
+      | _ => none
+    | _ => none
+  | .lp :: .atom "call" :: r => do
+    let (a, r) ← parseE r
+    match r with
+    | .lp :: r => do
+      let (as, r) ← parseL r []
+      match r with
+      | .atom k :: .rp :: r => k.toNat?.map fun k => (.call a as k, r)
+      | _ => none
+    | _ => none
+  | .lp :: .atom "prog" :: r => (parseL r []).map fun (es, r) => (.prog es, r)
+  | .lp :: .atom "cond" :: r => do
+    let (c, r) ← parseE r
+    let (a, r) ← parseE r
+    let (b, r) ← parseE r
+    match r with
+    | .rp :: r => some (.cond c a b, r)
+    | _ => none
+  | .lp :: .atom "each" :: r => do
+    let (f, r) ← parseE r
+    let (a, r) ← parseE r
+    match r with
+    | .rp :: r => some (.each f a, r)
+    | _ => none
+  | .lp :: .atom "over" :: r => do
+    let (f, r) ← parseE r
+    let (a, r) ← parseE r
+    match r with
+    | .rp :: r => some (.over f a, r)
+    | _ => none
+  | _ => none
+/-- expressions up to the closing parenthesis -/
+partial def parseL : List Val.Tok → List Expr → Option (List Expr × List Val.Tok)
+  | .rp :: r, acc => some (acc.reverse, r)
+  | ts, acc => match parseE ts with
+    | some (e, r) => parseL r (e :: acc)
+    | none => none
+end
+
+def ofWire (s : String) : Option Expr :=
+  match parseE (Val.tokenize s) with
+  | some (e, []) => some e
+  | _ => none
+
+/-- every function literal of an AST carries the arity `fnArity` infers from its body -/
+partial def aritiesOk : Expr → Bool
+  | .fn a k => fnArity a == k && aritiesOk a
+  | .op1 _ a => aritiesOk a
+  | .op2 _ a b => aritiesOk a && aritiesOk b
+  | .asg _ e => aritiesOk e
+  | .proj a as _ => aritiesOk a && as.all aritiesOk
+  | .call a as _ => aritiesOk a && as.all aritiesOk
+  | .callN a _ => aritiesOk a
+  | .prog es => es.all aritiesOk
+  | .cond c a b => aritiesOk c && aritiesOk a && aritiesOk b
+  | .each f a => aritiesOk f && aritiesOk a
+  | .over f a => aritiesOk f && aritiesOk a
+  | _ => true
+
+/-! ## driver
+
+  State: the interpreter state of the current case.  Requests:
+    new                          fresh interpreter (global scope + two system scopes, min 2, strict 0)
+    def <name> <expr>            bind a global from outside (`klong[name] = …`)
+    run <fuel> <expr>            evaluate a program (a `prog` node); reply
+                                 `ok <value>` / `err <class>`  depth=<n> log=[…] vars=<name>=<value>;…
+    subst <expr> <v> <v> <v>…    reference: the body with x y z replaced
+    arity <expr>                 fnArity of a body
+    ctx new <strict> <min> <n>   bare KlongContext with n scopes (last one read-only)
+    ctx set/get/del/push/pop …   one KlongContext operation; reply result + all scopes
+-/
+
+def showErr : Err → String
+  | .boom => "boom"
+  | .undef => "undef"
+  | .strict => "strict"
+  | .type => "type"
+  | .fuel => "fuel"
+  | .unmodelled => "unmodelled"
+
+def showKV (d : KV) : String :=
+  let items := (d.map fun p => p.1 ++ "=" ++ toWire p.2).toArray.qsort (· < ·)
+  ";".intercalate items.toList
+
+def showScopes (c : Ctx) : String :=
+  " | ".intercalate (c.scopes.map fun d => (if d.ro then "ro:" else "") ++ showKV d.kv)
+
+def showLog (l : List Expr) : String := "[" ++ ",".intercalate (l.map toWire) ++ "]"
+
+def freshCtx : Ctx := { scopes := [{}, {}, { ro := true }], minCount := 2, strict := 0 }
+
+def init : St := { ctx := freshCtx }
+
+def globalsOf (c : Ctx) : KV :=
+  match c.scopes.reverse with
+  | _ :: _ :: g :: _ => g.kv
+  | _ => []
+
+def digest (s : St) : String :=
+  s!"depth={s.ctx.depth} log={showLog s.log} vars={showKV (globalsOf s.ctx)}"
+
+def restOf (ws : List String) : String := " ".intercalate ws
+
+def parseKV (s : String) : Option KV :=
+  (Wire.splitOnChar s ',').mapM fun item =>
+    match item.splitOn ":" with
+    | [k, v] => v.toInt?.map fun n => (k, Expr.lit (.int n))
+    | _ => none
+
+def handle (s : St) (ws : List String) : St × String :=
+  match ws with
+  | ["new"] => (init, "ok " ++ digest init)
+  | "def" :: name :: rest =>
+    match ofWire (restOf rest) with
+    | some e =>
+      match s.ctx.set name e with
+      | .ok c => let s' := { s with ctx := c }; (s', "ok " ++ digest s')
+      | .error er => (s, "err " ++ showErr er)
+    | none => (s, "bad-op")
+  | "run" :: fuel :: rest =>
+    match fuel.toNat?, ofWire (restOf rest) with
+    | some n, some e =>
+      if !aritiesOk e then (s, "arity-mismatch")
+      else
+        let (r, s') := eval n e { s with log := [] }
+        let out := match r with
+          | .ok v => "ok " ++ toWire v
+          | .error er => "err " ++ showErr er
+        (s', out ++ " " ++ digest s')
+    | _, _ => (s, "bad-op")
+  | "subst" :: rest =>
+    match Val.tokenize (restOf rest) |> fun ts => parseL (ts ++ [.rp]) [] with
+    | some (body :: vals, []) =>
+      let σ : KV := List.zip ["x", "y", "z"] vals
+      (s, "ok " ++ toWire (subst σ body))
+    | _ => (s, "bad-op")
+  | "arity" :: rest =>
+    match ofWire (restOf rest) with
+    | some e => (s, s!"ok {fnArity e}")
+    | none => (s, "bad-op")
+  | ["ctx", "new", strict, min, n] =>
+    match strict.toNat?, min.toNat?, n.toNat? with
+    | some st, some m, some (k + 1) =>
+      let scopes := List.replicate k ({} : Scope) ++ [{ ro := true }]
+      let c : Ctx := { scopes, minCount := m, strict := st }
+      ({ ctx := c }, "ok " ++ showScopes c)
+    | _, _, _ => (s, "bad-op")
+  | ["ctx", "seed", idx, kvs] =>
+    -- fill scope idx directly (construction of the system scopes)
+    match idx.toNat?, parseKV kvs with
+    | some i, some d =>
+      let scopes := s.ctx.scopes.mapIdx fun j sc => if j == i then { sc with kv := d } else sc
+      let c := { s.ctx with scopes }
+      ({ s with ctx := c }, "ok " ++ showScopes c)
+    | _, _ => (s, "bad-op")
+  | ["ctx", "set", k, v] =>
+    match v.toInt? with
+    | some n =>
+      match s.ctx.set k (.lit (.int n)) with
+      | .ok c => ({ s with ctx := c }, "ok " ++ showScopes c)
+      | .error er => (s, "err:" ++ showErr er ++ " " ++ showScopes s.ctx)
+    | none => (s, "bad-op")
+  | ["ctx", "get", k] =>
+    match s.ctx.get k with
+    | some v => (s, "val:" ++ toWire v ++ " " ++ showScopes s.ctx)
+    | none => (s, "keyerror " ++ showScopes s.ctx)
+  | ["ctx", "del", k] =>
+    match s.ctx.del k with
+    | some c => ({ s with ctx := c }, "ok " ++ showScopes c)
+    | none => (s, "keyerror " ++ showScopes s.ctx)
+  | ["ctx", "push", kvs] =>
+    match parseKV kvs with
+    | some d => let c := s.ctx.push d; ({ s with ctx := c }, "ok " ++ showScopes c)
+    | none => (s, "bad-op")
+  | ["ctx", "push"] => let c := s.ctx.push []; ({ s with ctx := c }, "ok " ++ showScopes c)
+  | ["ctx", "pop"] =>
+    let c := s.ctx.pop
+    ({ s with ctx := c }, (if c.depth < s.ctx.depth then "popped " else "none ") ++ showScopes c)
+  | _ => (s, "bad-op")
 
 end Klong.C03
